@@ -187,6 +187,9 @@ def run(ctx) -> None:
         ("C02.R8-finish-handshake", "ComponentState.finish: every path either sets controllerState to the requested final state or "
                                     "subscribes a setter of that state to notifyPostMortem, and the subscription is in place "
                                     "before anything that makes the component enter POSTMORTEM (engine.kill / direct transition)"),
+        ("C02.R9-decide-with-complete-information", "_schedule disposes of a component (ready or fake-finished with a final state) only on "
+                                                    "the satisfied side of _input_dependencies_satisfied: the verdict is then a function "
+                                                    "of all producers' final states, not of the order in which they were observed"),
         ("C02.R7-shutdown-table", "aggregating consumer shuts down on any non-replicated SHUTDOWN input or when all replicated inputs are SHUTDOWN"),
     ]:
         ctx.rule(rid, text)
@@ -335,15 +338,18 @@ def run(ctx) -> None:
         isinstance(c.func, ast.Attribute) and c.func.attr == "append" and dotted(c.func.value) == "ready"
         for c in own_calls(n.ast))]
     fake = match.nodes_calling(cfg, lambda c: last_attr(c) == "_fake_finish_with_state")
-    dep_tests = match.test_nodes(cfg, lambda t_: match.polarity(
-        t_, lambda e: isinstance(e, ast.Call) and last_attr(e) == "_input_dependencies_satisfied"))
+    dep_tests = match.test_nodes(cfg, lambda t_: match.polarity_through_locals(
+        sched, t_, lambda e: isinstance(e, ast.Call) and last_attr(e) == "_input_dependencies_satisfied"))
     ctx.require(bool(dep_tests) and bool(ready) and bool(fake), "anchor missing in _schedule")
     heads = [n for n in cfg.nodes if n.kind == "for"]
     disp = ready + fake
     for (tn, lab) in dep_tests:
         starts = [m for (m, l2) in tn.succ if l2 == lab]
         for s in starts:
-            rng = cfg.count_range(lambda n: n in disp, start=s, exits=heads + [cfg.exit], ignore_labels=("exc",))
+            # the dependency verdict does not change within a pass: once on its satisfied side, other tests of the same
+            # verdict (a local holding it) cannot take their unsatisfied side
+            same = {(n.id, match.other(l)) for n, l in dep_tests}
+            rng = cfg.count_range(lambda n: n in disp, start=s, exits=heads + [cfg.exit], ignore_labels=("exc",), blocked_edges=same)
             vals = list(rng.values())
             lo = min(v[0] for v in vals) if vals else 0
             hi = max(v[1] for v in vals) if vals else 0
@@ -355,6 +361,26 @@ def run(ctx) -> None:
                    "a component that passed the guards is disposed of %d..%d times in one pass: it can be left pending "
                    "forever or be finished twice" % (lo, hi),
                    construct="dispositions after the dependency guard = (%d,%d)" % (lo, hi))
+    # R9: every disposition is taken with all producers observed
+    universal = match.test_nodes(cfg, lambda t: "T" if (
+        isinstance(t, ast.Compare) and len(t.ops) == 1 and isinstance(t.ops[0], ast.Eq)
+        and isinstance(t.left, ast.Call) and call_name(t.left) == "len"
+        and isinstance(t.comparators[0], ast.Call) and call_name(t.comparators[0]) == "len") else None)
+    for dn in disp:
+        via_universal = any(dn.id in cfg.reach([m_ for (m_, l2) in n.succ if l2 == l], blocked=heads) for n, l in universal)
+        needs_all = dn in ready or via_universal
+        if not needs_all:
+            # reached only through existential rules ("some producer failed / shut down"): monotone, sound on partial information
+            ctx.ob("C02.R9-decide-with-complete-information", dn.ast, True,
+                   "decided by an existential rule (some producer failed/shut down): the verdict cannot change when more producers are observed",
+                   construct=short(dn.ast, 70) + " <- existential rule", trivial=True)
+            continue
+        ok = match.only_via_edges(cfg, dn, dep_tests)
+        ctx.ob("C02.R9-decide-with-complete-information", dn.ast, ok,
+               "this disposition is reached only when every producer's final state has been observed" if ok else
+               "this disposition can be reached while some producers are still active: a rule that quantifies over all producers "
+               "('all replicated inputs are shut down') is then evaluated on those observed so far, and the component's final "
+               "state depends on the order of the notifications", construct=short(dn.ast, 70) + " <- all producers observed")
     fsc = ctl.func("Controller.finalize_submit_components")
     ctx.analysed(fsc)
     cfg = CFG(fsc)
